@@ -170,10 +170,13 @@ package identity
 //@ func Remove
 //@   props C14 C15
 //@   requires repo != nil
+//@   modifies repository.refs, repository.mutSeq, repository.refMutSeq
+//@   opt trusted_frame
 //@   let sid = string(id)
 //@   let local = "refs/identities/" + sid
 //@   ensures [local-removed]   result == nil ==> !(local in repository.refs)
 //@   ensures [remotes-removed] result == nil ==> (forall r string :: { (r in repository.remotes) } (r in repository.remotes) ==> !(("refs/remotes/" + r + "/identities/" + sid) in repository.refs))
+//@   ensures [only-removes]    forall q string :: { (q in repository.refs) } (q in repository.refs) ==> old(q in repository.refs)
 //@   ensures [only-prefixed]   forall q string :: { (q in repository.refs) } !strings.HasPrefix(q, local) && (forall r string :: { (r in repository.remotes) } (r in repository.remotes) ==> !strings.HasPrefix(q, "refs/remotes/" + r + "/identities/" + sid)) ==> (q in repository.refs) == (q in old(repository.refs)) && repository.refs[q] == old(repository.refs)[q]
 //@   loop 1
 //@     invariant [l1-refs]   repository.refs == old(repository.refs) && (fullMatches == nil || fresh(fullMatches))
@@ -223,3 +226,16 @@ package identity
 //@   ensures [ref-update-is-last]     result == nil ==> repository.refMutSeq == repository.mutSeq && repository.mutSeq > old(repository.mutSeq)
 //@   loop 1
 //@     invariant repository.refs == refs0 && repository.mutSeq >= old(repository.mutSeq)
+
+// RemoveAll (C14): every identity that had a local ref is removed the way Remove removes it - remote-tracking
+// refs included (a merge without a new fetch must not bring it back).
+//@ func ListLocalIds
+//@   props C14
+//@   modifies nothing
+//@ func RemoveAll
+//@   props C14
+//@   requires repo != nil
+//@   check [each-one-removed-with-its-remote-refs] result == nil ==> (forall j int :: { localIds[j] } 0 <= j && j < len(localIds) ==> !(("refs/identities/" + string(localIds[j])) in repository.refs) && (forall r string :: { (r in repository.remotes) } (r in repository.remotes) ==> !(("refs/remotes/" + r + "/identities/" + string(localIds[j])) in repository.refs)))
+//@   loop 1
+//@     invariant [removed-so-far] forall j int :: { localIds[j] } 0 <= j && j <= rangeindex ==> !(("refs/identities/" + string(localIds[j])) in repository.refs) && (forall r string :: { (r in repository.remotes) } (r in repository.remotes) ==> !(("refs/remotes/" + r + "/identities/" + string(localIds[j])) in repository.refs))
+//@     invariant [only-shrinks] forall q string :: { (q in repository.refs) } (q in repository.refs) ==> (q in old(repository.refs))
